@@ -10,6 +10,7 @@ plus the shared structural rules the links depend on: footnote gathering
 import ast
 import re
 
+from .. import absint as A
 from .. import model as M
 from .. import templates as T
 from ..report import AnalysisError, need, REPO
@@ -49,20 +50,28 @@ def index_templates(sub):
     return idx, layouts
 
 
-def id_exprs(occ, var):
+def id_exprs(occ, var, iters=('obj', 'obj.childNodes', 'self', 'here', 'self/childNodes')):
     """id-like attribute expressions of a template that emit `var`'s id."""
     out = []
     for o in occ:
         if isinstance(o, T.Occurrence):
             if o.ctx == 'attr-quoted' and o.detail and o.detail.split('@')[-1] in ('id', 'name'):
-                e = T.expr_text(o.node)
-                if e in ('%s.id' % var, '%s.title.id' % var):
-                    out.append(e)
+                # the variable that stands for the node: `obj`, or (for kinds rendered by their parent) any loop variable over obj
+                names = [var]
+                if var != 'obj':
+                    names = [nm for nm, it in o.loopvars.items() if T.expr_text(it, o.aliases).split('|')[0] in iters] or [var]
+                for e in T.alternatives(o.node, o.aliases):
+                    if any(e in ('%s.id' % v, '%s.title.id' % v) for v in names):
+                        out.append(e)
         else:
             if o.kind == 'attribute' and o.attr in ('id', 'name'):
                 v = {'obj': 'self'}.get(var, var)
-                if o.expr in ('%s/id' % v, 'here/id' if v == 'self' else '', '%s/title/id' % v):
-                    out.append(o.expr)
+                names = [v]
+                if v != 'self':
+                    names = [nm for nm, it in getattr(o, 'repeats', {}).items() if it in iters] or [v]
+                for alt in [x.strip() for x in o.expr.split('|')]:
+                    if any(alt in ('%s/id' % nm, 'here/id' if nm == 'self' else '', '%s/title/id' % nm) for nm in names):
+                        out.append(alt)
     return out
 
 
@@ -136,8 +145,9 @@ def r141(chk, m):
             if tname in ELSEWHERE:
                 how, what, why = ELSEWHERE[tname]
                 if how == 'layout':
-                    ok = any(id_exprs(occ, what) for tpl, occ, f in layouts) if sub == 'HTML5' else \
-                        any(id_exprs(occ, what) or id_exprs(occ, 'self') for tpl, occ, f in idx.get(tname, []) + layouts)
+                    its = ('obj.%ss' % what, 'self/%ss' % what, 'here/%ss' % what)
+                    ok = any(id_exprs(occ, what, its) for tpl, occ, f in layouts) if sub == 'HTML5' else \
+                        any(id_exprs(occ, what, its) or id_exprs(occ, 'self') for tpl, occ, f in idx.get(tname, []) + layouts)
                 else:
                     ok = all(any(id_exprs(occ, 'obj') for tpl, occ, f in idx.get(p, [])) for p in what)
                 chk.verdict(R, key, ok, '%s: %s, but no such id is emitted' % (sub, why), where, why)
@@ -155,24 +165,47 @@ def r141(chk, m):
 
 
 def r142(chk, m):
-    R = chk.rule('R14.2', 'url composition: own-file nodes link to their file; other nodes to the file of the nearest ancestor with '
-                 'a filename plus #<own id>; both with and without base-url', 3)
-    fn = m.func('plasTeX.Renderers', 'Renderable.url')
+    R = chk.rule('R14.2', 'url composition on a heap of nodes (abstract interpretation of Renderable.url): a node with its own file links '
+                 'to that file without a fragment; any other node to the file of the nearest ancestor that has one plus #<own id>; '
+                 'both with and without base-url; a restored override wins', 6)
+    Rend = m.cls('plasTeX.Renderers', 'Renderable')
+    fn = Rend.properties.get('url', {}).get('get')
+    need(fn is not None, 'Renderable.url not found')
     chk.analysed(fn)
-    src = text(fn.node)
-    own = [n for n in fn.node.body if isinstance(n, ast.If) and text(n.test) == 'self.filename']
-    ok = len(own) == 1 and sorted(text(r.value) for r in ast.walk(own[0]) if isinstance(r, ast.Return)) == sorted(["URL('%s/%s' % (base, self.filename))", 'URL(self.filename)'])
-    chk.verdict(R, 'own-file nodes have no fragment', ok, 'a node with its own file must link to that file without a fragment', chk.where(fn))
-    loops = [n for n in M.walk_no_nested(fn.node) if isinstance(n, ast.While)]
-    ok = len(loops) == 1 and text(loops[0].test).replace('(', '').replace(')', '') == 'node is not None and node.filename is None' and \
-        [text(s) for s in loops[0].body] == ['node = node.parentNode']
-    start = [text(n.value) for n in M.walk_no_nested(fn.node) if isinstance(n, ast.Assign) and text(n.targets[0]) == 'node']
-    chk.verdict(R, 'file part is the nearest ancestor with a filename', ok and 'self.parentNode' in start,
-                'the file part must be found by climbing parentNode until a filename is set (loop %s)' % [text(l.test) for l in loops], chk.where(fn))
-    rets = [text(r.value) for r in fn.node.body if isinstance(r, ast.Return)] + \
-        [text(r.value) for n in fn.node.body if isinstance(n, ast.If) and text(n.test) == 'base' for r in ast.walk(n) if isinstance(r, ast.Return)]
-    ok = "URL('%s#%s' % (filename, self.id))" in rets and "URL('%s/%s#%s' % (base, filename, self.id))" in rets
-    chk.verdict(R, 'fragment is the node id', ok, 'the fragment of a link must be the node id: %s' % rets, chk.where(fn))
+
+    class H(A.Hooks):
+        cls = Rend
+
+        def keep(self, ev):
+            return False
+
+        def call(self, interp, node, fname, args, kwargs, state):
+            if fname == 'URL' and len(args) == 1 and isinstance(args[0], str):
+                return args[0]
+            return None
+
+    def tree(base):
+        cfg = {'document': {'base-url': base}}
+        doc = A.Obj('doc', {'filename': 'index.html', 'parentNode': None, 'id': 'doc', 'config': cfg, 'urloverride': None}, cls=Rend)
+        sec = A.Obj('sec', {'filename': 'sect1.html', 'parentNode': doc, 'id': 'sec1', 'config': cfg, 'urloverride': None}, cls=Rend)
+        sub = A.Obj('sub', {'filename': None, 'parentNode': sec, 'id': 'sub1', 'config': cfg, 'urloverride': None}, cls=Rend)
+        eq = A.Obj('eq', {'filename': None, 'parentNode': sub, 'id': 'eq:1', 'config': cfg, 'urloverride': None}, cls=Rend)
+        top = A.Obj('top', {'filename': None, 'parentNode': doc, 'id': 'top1', 'config': cfg, 'urloverride': None}, cls=Rend)
+        orphan = A.Obj('orphan', {'filename': None, 'parentNode': None, 'id': 'o1', 'config': cfg, 'urloverride': None}, cls=Rend)
+        restored = A.Obj('restored', {'filename': None, 'parentNode': None, 'id': 'r1', 'config': cfg, 'urloverride': 'other.html#r1'}, cls=Rend)
+        return dict(sec=sec, sub=sub, eq=eq, top=top, orphan=orphan, restored=restored)
+    cases = [('own file', 'sec', None, 'sect1.html'), ('own file, base-url', 'sec', 'http://h/', 'http://h/sect1.html'),
+             ('inside a file', 'sub', None, 'sect1.html#sub1'), ('two levels inside a file', 'eq', None, 'sect1.html#eq:1'),
+             ('inside the document file', 'top', None, 'index.html#top1'), ('inside a file, base-url', 'eq', 'http://h', 'http://h/sect1.html#eq:1'),
+             ('no ancestor with a file', 'orphan', None, '#o1'), ('restored from another document', 'restored', None, 'other.html#r1')]
+    for label, which, base, want in cases:
+        nodes = tree(base)
+        it = A.Interp(model=m, scope=fn, hooks=H(), max_iter=8, exc_edges=False, inline=3, heap=True, precise_exc=True)
+        H.should_inline = staticmethod(A.private_only)
+        outs = it.run_function(fn, env={'self': nodes[which]})
+        got = {(kind, v if isinstance(v, str) else 'TOP') for kind, s2, v in outs}
+        chk.decide(R, 'url: %s' % label, got, {('return', want)},
+                   'the url of a node %s (base-url %r) is %s; expected %r' % (label, base, sorted(got), want), chk.where(fn))
 
 
 def r143(chk, m):
@@ -188,10 +221,11 @@ def r143(chk, m):
             except SyntaxError:
                 continue
             for o in occ:
-                e = T.expr_text(o.node)
-                if e.endswith('idref.label.url') and tpl.names and tpl.names[0] in ('ref', 'eqref', 'pageref', 'cref'):
+                alts = T.alternatives(o.node, o.aliases)
+                e = T.expr_text(o.node, o.aliases)
+                if any(a.endswith('idref.label.url') for a in alts) and tpl.names and tpl.names[0] in ('ref', 'eqref', 'pageref', 'cref'):
                     n += 1
-                    guarded = any(pol and re.search(r'idref\.label\.(ref|url)', t) for t, pol in o.guards)
+                    guarded = any(pol and re.search(r'idref\.label\b.*\.(ref|url)', t) for t, pol in o.guards)
                     chk.verdict(R, '%s :: %s' % (tpl.key, e), guarded,
                                 '%s links to the referenced object without testing that the reference resolved: a dangling \\ref '
                                 'would link to the placeholder' % tpl.key, '%s:%d' % (f.replace(REPO + '/', ''), o.line), str(list(o.guards)))
